@@ -52,8 +52,15 @@ CellOK(ctx, d, path, k) ==
 
 YContexts == {"block", "loop", "then", "else", "elif_then", "elif_else", "elif2", "label"}
 XContexts == {"paren", "elem", "member", "nested", "ret", "cond"}
+\* Sibling contexts of a whole-aggregate copy (read cells whose value is an array or a struct): the copy
+\* stands next to an expression that is evaluated EARLIER in the same statement -- a call with an argument
+\* in the index of the assignment target, in an earlier member of a struct literal, in an earlier nested
+\* array literal -- or next to the same shapes without a call / with a call without arguments.  The rule
+\* ignores what stands next to the copy.
+SibContexts == {"sib_idx", "sib_idx0", "sib_zero", "sib_member", "sib_member0", "sib_nested"}
 Contexts == {<<"direct", "top">>} \cup {<<"direct", y>> : y \in YContexts} \cup {<<x, "top">> : x \in XContexts}
                 \cup {<<"elem", "elif_then">>, <<"member", "elif2">>, <<"nested", "elif_else">>}
+                \cup {<<x, "top">> : x \in SibContexts} \cup {<<"sib_idx", "elif_then">>, <<"sib_member", "block">>}
 
 Cells == {[kind |-> b[1], d |-> b[2], path |-> p, k |-> k, ctx |-> ctx, x |-> xy[1], y |-> xy[2]] :
               b \in Bases, p \in UNION {PathsFrom(x[2], MaxSteps) : x \in Bases}, k \in 0..3,
@@ -67,7 +74,9 @@ ContextOK(cl) ==
         et == ExpectType(F, cl.k)
     IN /\ (cl.ctx = "argxp" => cl.x = "direct")
        /\ (cl.y # "top" => Len(cl.path) <= 2)
-       /\ (cl.x # "direct" => /\ cl.ctx = "arg" /\ cl.k >= 1 /\ Len(cl.path) <= 2
+       /\ (cl.x \in SibContexts => /\ cl.ctx = "read" /\ cl.k = 0 /\ Len(cl.path) <= 2
+                                     /\ Kind(et) \in {"arr", "struct"} /\ Declarable(et))
+       /\ (cl.x \notin SibContexts \cup {"direct"} => /\ cl.ctx = "arg" /\ cl.k >= 1 /\ Len(cl.path) <= 2
                                /\ Kind(et) = "ptr" /\ Declarable(et)
                                /\ Kind(core) \notin {"view", "slice", "sptr"})
 
